@@ -205,7 +205,13 @@ DoBioavailability == \E tok \in {"B:1", "B:0"} : Step(tok)
 DoAddMetabolite   == Step("M:BASIC")
 DoZeroOrderInput  == Step("ZI")
 DoParameterEdit   == \E tok \in {"COV", "CAT", "RCOV", "IOV", "RIOV", "CE", "RUV1", "RUV2", "RRV", "IIV", "FIX", "RCL", "RV"} : Step(tok)
-Next == \/ DoSetAbsorption \/ DoSetElimination \/ DoSetPeripherals \/ DoSetTransits \/ DoLagTime
+\* generation point: update_source / model.code / write_model may be asked for in any state.  It leaves the structural
+\* state alone (a stuttering step of this machine) but it is a step of the implementation: the model's internals then
+\* carry the ADVAN/TRANS of the code just generated, and the next generation converts the PK parameter names from THAT
+\* library (pk_param_conversion) - so a row (AdvanOf(p), p.trans) -> (AdvanOf(u), u.trans) of the conversion table is only
+\* exercised by a history that has a generation point in p.  The driver writes it as the token "SYNC".
+DoSync == s' = s
+Next == \/ DoSync \/ DoSetAbsorption \/ DoSetElimination \/ DoSetPeripherals \/ DoSetTransits \/ DoLagTime
         \/ DoBioavailability \/ DoAddMetabolite \/ DoZeroOrderInput \/ DoParameterEdit
 Spec == Init /\ [][Next]_vars
 
